@@ -144,3 +144,93 @@ def validate_traces(problems, traces, workers=1, timeout=3600):
         return res, stats
     finally:
         shutil.rmtree(d, ignore_errors=True)
+
+
+def validate_solver_traces(scenarios, traces, timeout=3600):
+    """Per trace: {accept: bool, why: [...], violates: [...], l: int} (SolverTrace.tla)."""
+    if not traces:
+        return [], {"generated": 0, "distinct": 0, "wall_s": 0}
+    d = tempfile.mkdtemp(prefix="strc_")
+    try:
+        sf = os.path.join(d, "scenarios.json")
+        tf = os.path.join(d, "traces.json")
+        with open(sf, "w") as f:
+            json.dump(scenarios, f)
+        with open(tf, "w") as f:
+            json.dump(traces, f)
+        lines, stats = run_tlc("SolverTrace", "SolverTrace.cfg", {"SCENARIO_FILE": sf, "TRACE_FILE": tf},
+                               workers=1, timeout=timeout)
+        res = [{"accept": None, "why": [], "violates": [], "l": 0} for _ in traces]
+        for rec in _json_lines(lines):
+            if "tid" not in rec or "verdict" not in rec:
+                continue
+            r = res[rec["tid"] - 1]
+            if rec["verdict"] == "violates":
+                for w in rec["why"]:
+                    if w not in r["violates"]:
+                        r["violates"].append(w)
+            elif rec["verdict"] == "accept":
+                r["accept"] = True
+                r["l"] = rec["l"]
+            elif r["accept"] is None or (r["accept"] is False and rec["l"] > r["l"]):
+                r["accept"] = False
+                r["why"] = sorted(rec["why"])
+                r["l"] = rec["l"]
+        for i, r in enumerate(res):
+            if r["accept"] is None:
+                raise TLCError(f"no verdict for solver trace {i + 1}")
+        return res, stats
+    finally:
+        shutil.rmtree(d, ignore_errors=True)
+
+
+_ACTION = re.compile(r"^\\\* <(\w+) ")
+
+
+def simulate_calls(scenario, num=20, depth=40, seed=1, maxcalls=6, timeout=300):
+    """Spec -> code: behaviours of Solver generated by TLC in simulation mode, reduced to their
+    sequences of public calls.  Returns a list of call sequences [("solve",), ("another",), ...]."""
+    d = tempfile.mkdtemp(prefix="sim_")
+    try:
+        sf = os.path.join(d, "scenario.json")
+        with open(sf, "w") as f:
+            json.dump([dict(scenario, id=1)], f)
+        cfg = os.path.join(d, "sim.cfg")
+        with open(cfg, "w") as f:
+            f.write(f"SPECIFICATION Spec\nCONSTANTS\n  PopOnExit = TRUE\n  MaxCalls = {maxcalls}\nCHECK_DEADLOCK FALSE\n")
+        cmd = ["java", "-Xmx2g", "-XX:+UseParallelGC", "-cp", _classpath(), "tlc2.TLC", "-workers", "1",
+               "-metadir", os.path.join(d, "meta"), "-noGenerateSpecTE", "-config", cfg,
+               "-simulate", f"file={os.path.join(d, 'tr')},num={num}", "-depth", str(depth), "-seed", str(seed),
+               os.path.join(SPEC_DIR, "MC_Solver.tla")]
+        e = dict(os.environ)
+        e["SCENARIO_FILE"] = sf
+        try:
+            subprocess.run(cmd, cwd=d, env=e, capture_output=True, text=True, timeout=timeout)
+        except subprocess.TimeoutExpired:
+            pass
+        seqs = []
+        for fn in sorted(os.listdir(d)):
+            if not fn.startswith("tr"):
+                continue
+            calls, nvar = [], 0
+            for ln in open(os.path.join(d, fn)):
+                m = _ACTION.match(ln)
+                if not m:
+                    continue
+                a = m.group(1)
+                if a == "CallSolve":
+                    calls.append(("solve",))
+                elif a == "CallFindAnother":
+                    calls.append(("another",))
+                elif a == "CallFindAnotherVar":
+                    nvar += 1
+                    calls.append(("another_var", 1 + (nvar - 1) % max(1, scenario.get("nvars", 1))))
+                elif a == "CallInitialize":
+                    calls.append(("initialize",))
+                elif a == "CallExport":
+                    calls.append(("export",))
+            if calls and calls not in seqs:
+                seqs.append(calls)
+        return seqs
+    finally:
+        shutil.rmtree(d, ignore_errors=True)
